@@ -3,6 +3,7 @@ CONSTANTS
   PartialUsecAsterisks = TRUE
   NegOffsetFix = TRUE
   CopyKeepsPrecision = FALSE
+  ForeignTzNorm = "keep"
   Years <- YearsS
   Months <- MonthsS
   DaysOfMonth <- DomS
